@@ -125,9 +125,50 @@ func checkC16(c *Ctx) {
 	c.Rule(V1, "VerifyASN1: key ← parsed certificate of the presented identity; digest ← sha256(whole handshake, signature blanked); sig ← field as received", 2)
 	c.Rule(V2, "lookup key depends on domain and identity; returned id ← lookup; returned domain ← handshake; exporter on the same conn", 2)
 	c.Rule(G2, "sends on the message channel: only in handleConn, dominated by success, carrying the authenticated id/domain", 1)
-	if len(auth.Params) != 3 {
+	nres := auth.Signature.Results().Len()
+	// one result: a pointer to the authenticated identity, nil on failure
+	ptrResult := false
+	if nres == 1 {
+		if pt, ok := auth.Signature.Results().At(0).Type().Underlying().(*types.Pointer); ok {
+			_, ptrResult = pt.Elem().Underlying().(*types.Struct)
+		}
+	}
+	if len(auth.Params) != 3 || nres > 3 || (nres < 2 && !ptrResult) {
 		c.Fatalf("anchor", "authenticateConnection signature changed")
 		return
+	}
+	L := nres - 1 // the success flag; the identity is (domain, id) before it, or one struct holding both
+	// retPart: the domain (string) or the id (16-bit) a return hands out
+	retPart := func(ret *ssa.Return, wantID bool) ssa.Value {
+		if nres == 3 {
+			if wantID {
+				return retResult(ret, 1)
+			}
+			return retResult(ret, 0)
+		}
+		v := retResult(ret, 0)
+		vt := v.Type().Underlying()
+		if pt, isP := vt.(*types.Pointer); isP && ptrResult {
+			vt = pt.Elem().Underlying()
+		}
+		st, ok := vt.(*types.Struct)
+		if !ok {
+			return nil
+		}
+		var hit ssa.Value
+		for i := 0; i < st.NumFields(); i++ {
+			f := st.Field(i)
+			isID := intWidth(f.Type()) == 16
+			b, isB := f.Type().Underlying().(*types.Basic)
+			isDom := isB && b.Info()&types.IsString != 0
+			if (wantID && isID) || (!wantID && isDom) {
+				if hit != nil {
+					return nil
+				}
+				hit = structFieldValue(v, f, 0)
+			}
+		}
+		return hit
 	}
 	p2id, conn := auth.Params[0], auth.Params[1]
 
@@ -145,15 +186,89 @@ func checkC16(c *Ctx) {
 		c.Bad(G1, fname, "handshake read", "-", "authenticateConnection does not read a Handshake from the connection")
 		return
 	}
+	// the handshake object: h itself, or a copy of it — the local cell of a by-value parameter of a
+	// transparent helper that the call gives `*h` (taken after the read): reading a field of the copy reads
+	// what h held then, writing one leaves h alone
+	hCopy := func(v ssa.Value) bool {
+		cell, ok := v.(*ssa.Alloc)
+		if !ok || cell == h || cell.Referrers() == nil {
+			return false
+		}
+		n := 0
+		isCopy := false
+		for _, r := range *cell.Referrers() {
+			st, isSt := r.(*ssa.Store)
+			if !isSt || st.Addr != ssa.Value(cell) {
+				continue
+			}
+			n++
+			if ld, isLd := strip(st.Val).(*ssa.UnOp); isLd && ld.Op == token.MUL && ld.X == ssa.Value(h) && instrDominates(readCall, ld) {
+				isCopy = true
+			}
+		}
+		return n == 1 && isCopy
+	}
+	hObj := func(v ssa.Value) ssa.Value {
+		noParamLook++
+		b := strip(v)
+		noParamLook--
+		if b == ssa.Value(h) || hCopy(b) {
+			return b
+		}
+		if b2 := strip(v); b2 == ssa.Value(h) || hCopy(b2) {
+			return b2
+		}
+		return nil
+	}
 	isHField := func(v ssa.Value, f *types.Var) bool {
 		b, g, ok := fieldLoad(strip(v))
-		return ok && g == f && strip(b) == ssa.Value(h)
+		return ok && g == f && hObj(b) != nil
 	}
 	// success returns
 	var succ []*ssa.Return
+	constFalse := func(v ssa.Value) bool {
+		k, ok := v.(*ssa.Const)
+		return ok && k.Value != nil && k.Value.String() == "false"
+	}
+	// a failure return: `return "", 0, false`, or `return reject(…)` of a local helper/literal all of whose
+	// returns report false
+	isFailure := func(r *ssa.Return) bool {
+		third := retResult(r, L)
+		if ptrResult {
+			return isNilConst(third)
+		}
+		if constFalse(third) {
+			return true
+		}
+		e, ok := third.(*ssa.Extract)
+		if !ok || e.Index != L {
+			return false
+		}
+		cl, ok := e.Tuple.(*ssa.Call)
+		if !ok {
+			return false
+		}
+		g := staticCallee(&cl.Call)
+		if g == nil {
+			g = sl.localClosureCallee(cl.Call.Value)
+		}
+		if g == nil || g.Blocks == nil || pkgPathOf(g) != PkgNet {
+			return false
+		}
+		n := 0
+		for _, gi := range instrsOf(g) {
+			if gr, isR := gi.(*ssa.Return); isR {
+				n++
+				if len(gr.Results) != nres || !constFalse(retResult(gr, L)) {
+					return false
+				}
+			}
+		}
+		return n > 0
+	}
 	for _, in := range instrsOf(auth) {
-		if r, ok := in.(*ssa.Return); ok && len(r.Results) == 3 {
-			if k, ok := r.Results[2].(*ssa.Const); ok && k.Value != nil && k.Value.String() == "false" {
+		if r, ok := in.(*ssa.Return); ok && len(r.Results) == nres {
+			if isFailure(r) {
 				continue
 			}
 			succ = append(succ, r)
@@ -163,7 +278,12 @@ func checkC16(c *Ctx) {
 		c.Bad(G1, fname, "success return", "-", "no success return found")
 		return
 	}
-	verifyCalls := callsInFn(auth, "crypto/ecdsa", "VerifyASN1")
+	var verifyCalls []*ssa.Call
+	for _, in := range instrsDeep(auth) {
+		if cl, ok := in.(*ssa.Call); ok && isCallTo(&cl.Call, "crypto/ecdsa", "VerifyASN1") {
+			verifyCalls = append(verifyCalls, cl)
+		}
+	}
 	for _, ret := range succ {
 		facts := FactsAt(ret)
 		rp := pos(ret.Pos())
@@ -250,7 +370,7 @@ func checkC16(c *Ctx) {
 		ok5 := false
 		why5 := "no VerifyASN1 call to take the key from"
 		if vcall != nil {
-			key := strip(vcall.Call.Args[0])
+			key := resultOf(vcall.Call.Args[0])
 			var ta *ssa.TypeAssert
 			if e, ok := key.(*ssa.Extract); ok && e.Index == 0 {
 				ta, _ = e.Tuple.(*ssa.TypeAssert)
@@ -296,12 +416,17 @@ func checkC16(c *Ctx) {
 				return ok && staticCallee(&cl.Call) != nil && isSHA256Variadic(staticCallee(&cl.Call))
 			})
 			c.Check(hasDom && hasId && hashed, V2, fname, "lookup key", pos(lk.Pos()), "hex(sha256(h.Domain, h.Identity))", "the registered-table key does not bind both the claimed domain and the presented identity")
-			e, isE := strip(ret.Results[1]).(*ssa.Extract)
+			var e *ssa.Extract
+			isE := false
+			if idv := retPart(ret, true); idv != nil {
+				e, isE = resultOf(idv).(*ssa.Extract)
+			}
 			c.Check(isE && e.Index == 0 && e.Tuple == ssa.Value(lk), V2, fname, "returned id", rp, "id ← lookup result", "the id returned is not the registered table's entry for the presented identity")
 		} else {
 			c.Bad(V2, fname, "lookup key", rp, "no registered-table lookup on the path to success")
 		}
-		c.Check(isHField(ret.Results[0], fDomain), V2, fname, "returned domain", rp, "domain ← h.Domain (signed)", "the domain returned is not the one covered by the signature")
+		domv := retPart(ret, false)
+		c.Check(domv != nil && isHField(domv, fDomain), V2, fname, "returned domain", rp, "domain ← h.Domain (signed)", "the domain returned is not the one covered by the signature")
 	}
 
 	// V1 provenance of VerifyASN1 operands
@@ -323,20 +448,25 @@ func checkC16(c *Ctx) {
 		// digest ← sha256Digest(h.Bytes()) with h complete
 		okD, whyD := false, "digest is not SHA-256 of the marshalled handshake"
 		var bytesCall *ssa.Call
-		if dc, ok := strip(vc.Call.Args[1]).(*ssa.Call); ok && staticCallee(&dc.Call) != nil && isSHA256Variadic(staticCallee(&dc.Call)) {
+		var digestObj ssa.Value
+		if dc, ok := resultOf(vc.Call.Args[1]).(*ssa.Call); ok && staticCallee(&dc.Call) != nil && isSHA256Variadic(staticCallee(&dc.Call)) {
 			el := variadicElems(dc.Call.Args[0])
 			if len(el) == 1 {
 				if bc, ok := strip(el[0]).(*ssa.Call); ok && staticCallee(&bc.Call) == bytesFn {
 					// receiver is the whole handshake h
-					rv := strip(bc.Call.Args[0])
-					if ld, ok := rv.(*ssa.UnOp); ok && ld.Op == token.MUL && ld.X == ssa.Value(h) {
+					rv := bc.Call.Args[0]
+					noParamLook++
+					rs := strip(rv)
+					noParamLook--
+					if ld, ok := rs.(*ssa.UnOp); ok && ld.Op == token.MUL {
+						rs = ld.X
+					}
+					if o := hObj(rs); o != nil {
 						okD = true
 						bytesCall = bc
-					} else if rv == ssa.Value(h) {
-						okD = true
-						bytesCall = bc
+						digestObj = o
 					} else {
-						whyD = "Bytes() is not called on the handshake that was read"
+						whyD = "Bytes() is not called on the handshake that was read (or a copy of it)"
 					}
 				}
 			} else {
@@ -345,10 +475,12 @@ func checkC16(c *Ctx) {
 		}
 		c.Check(okD, V1, fname, "signed digest", vp, "digest ← sha256(h.Bytes()) of the very handshake whose binding is compared", whyD)
 		// signature ← h.Signature loaded before the blanking store; blanking precedes Bytes()
+		// (the blanking happens on the object that is marshalled: h itself, or the copy a helper works on)
 		var blank *ssa.Store
 		nSigStores := 0
 		for _, st := range storesToField(deepFuncs(auth), fSig) {
-			if fa := st.Addr.(*ssa.FieldAddr); strip(fa.X) == ssa.Value(h) {
+			fa := st.Addr.(*ssa.FieldAddr)
+			if o := hObj(fa.X); o != nil && (digestObj == nil || o == digestObj) {
 				nSigStores++
 				if isNilConst(st.Val) {
 					blank = st
@@ -360,9 +492,11 @@ func checkC16(c *Ctx) {
 		whyS := "signature operand is not the handshake's Signature field"
 		if isHField(sigArg, fSig) {
 			ld := sigArg.(ssa.Instruction)
+			sb, _, _ := fieldLoad(sigArg)
+			sigObj := hObj(sb)
 			if blank == nil || nSigStores != 1 {
 				whyS = "the Signature field is not blanked exactly once before hashing (the signed bytes must exclude the signature)"
-			} else if !instrDominates(ld, blank) {
+			} else if sigObj == digestObj && !instrDominates(ld, blank) {
 				whyS = "the signature is read after the field was blanked"
 			} else if bytesCall == nil || !instrDominates(blank, bytesCall) {
 				whyS = "the handshake is marshalled before the Signature field is blanked"
@@ -425,7 +559,7 @@ func checkC16(c *Ctx) {
 			}
 			nSend++
 			sp := pos(snd.Pos())
-			if fn != handle {
+			if fn != handle && !inlinedInto(fn, handle) {
 				c.Bad(G2, FuncName(fn), "send on the message channel", sp, "a function other than handleConn emits attributed messages")
 				continue
 			}
@@ -441,14 +575,55 @@ func checkC16(c *Ctx) {
 			}
 			okF := boolFact(FactsAt(snd), true, func(v ssa.Value) bool {
 				e, ok := v.(*ssa.Extract)
-				return ok && e.Tuple == ssa.Value(ac) && e.Index == 2
+				return ok && e.Tuple == ssa.Value(ac) && e.Index == L
 			})
+			if ptrResult {
+				okF = hasFact(FactsAt(snd), func(f Fact) bool {
+					return f.Op == token.NEQ && ((strip(f.X) == ssa.Value(ac) && isNilConst(f.Y)) || (strip(f.Y) == ssa.Value(ac) && isNilConst(f.X)))
+				})
+			}
 			c.Check(okF, G2, FuncName(fn), "send dominated by authentication success", sp, "authenticationSucceeded is true", "messages of an unauthenticated connection are emitted")
 			from := structFieldValue(snd.X, fieldByName(snd.X.Type(), "From"), 0)
 			dom := structFieldValue(snd.X, fieldByName(snd.X.Type(), "Domain"), 0)
 			isExt := func(v ssa.Value, i int) bool {
-				e, ok := strip(v).(*ssa.Extract)
-				return v != nil && ok && e.Tuple == ssa.Value(ac) && e.Index == i
+				if v == nil {
+					return false
+				}
+				if nres == 3 {
+					e, ok := strip(v).(*ssa.Extract)
+					return ok && e.Tuple == ssa.Value(ac) && e.Index == i
+				}
+				// one struct holding both: the field of the right kind of the authenticated peer (result 0)
+				// (read as written in this function: not looked through to what the helper put there)
+				b, f, ok := fieldLoad(stripNoParam(v))
+				if !ok {
+					b, f, ok = fieldLoad(strip(v))
+				}
+				if !ok {
+					return false
+				}
+				wantID := i == 1
+				bt, isB := f.Type().Underlying().(*types.Basic)
+				if wantID && intWidth(f.Type()) != 16 {
+					return false
+				}
+				if !wantID && !(isB && bt.Info()&types.IsString != 0) {
+					return false
+				}
+				base := strip(b)
+				if ptrResult {
+					return base == ssa.Value(ac) // a field of the identity the call returned
+				}
+				if ld, isLd := base.(*ssa.UnOp); isLd && ld.Op == token.MUL {
+					base = strip(ld.X)
+				}
+				if al, isA := base.(*ssa.Alloc); isA {
+					if sts := storesToCell(al); len(sts) == 1 {
+						base = strip(sts[0].Val)
+					}
+				}
+				e, isE := base.(*ssa.Extract)
+				return isE && e.Tuple == ssa.Value(ac) && e.Index == 0
 			}
 			c.Check(isExt(from, 1) && isExt(dom, 0), G2, FuncName(fn), "attributed id and domain", sp, "From/Domain ← results of authenticateConnection", "the emitted message is not attributed to the authenticated identity")
 			// the same conn is authenticated and read
